@@ -126,6 +126,7 @@ def monitor(ctx, n_per_group_list):
             continue
         atoms, meta = made
         a2, desc = crystals.present(atoms, rng)
+        flag_as_built = None
         for label, a in (("as-built", atoms), ("presented", a2)):
             if len(a) > 400:
                 continue
@@ -137,12 +138,50 @@ def monitor(ctx, n_per_group_list):
                 bad.append({"group": n, "error": repr(e), "atoms": crystals.atoms_to_json(a), "presentation": desc})
                 continue
             if num != n:
+                # the as-built crystal was analysed as group n (exact coordinates, tolerance 1e-3): another description of the SAME crystal that
+                # comes out with another flag violates "the answer does not depend on the lattice basis", whatever group was detected for it
+                if label == "presented" and flag_as_built is not None and flag != flag_as_built:
+                    ctx.count("e2e_presented_flag_differs")
+                    bad.append({"group": n, "flag": flag, "expected": flag_as_built, "detected_group_of_this_description": int(num),
+                                "atoms": crystals.atoms_to_json(a), "presentation": desc})
+                    continue
                 ctx.count("e2e_discarded_group_changed")   # ill-conditioned sample, not judged
                 continue
+            if label == "as-built":
+                flag_as_built = flag
             ctx.case(("e2e", n, label, json.dumps(desc, sort_keys=True)[:200]), nontrivial=True)
             ctx.count("e2e_" + label)
             if flag != (n in SOHNCKE):
                 bad.append({"group": n, "flag": flag, "expected": n in SOHNCKE, "atoms": crystals.atoms_to_json(a), "presentation": desc if label == "presented" else {}})
+    # directed: non-centrosymmetric ACHIRAL groups described in a LEFT-handed basis whose third vector leans over the other two
+    # (det = -1, c' = a + b - c): the flag must be what it is for the crystal as built
+    from ase import Atoms
+    for n in (7, 8, 31, 81, 99, 156, 186, 215, 25, 160):
+        made = None
+        for _ in range(10):
+            made = crystals.ase_crystal(n, rng, max_atoms=60)
+            if made:
+                break
+        if not made:
+            continue
+        atoms, meta = made
+        U = np.array([[1, 0, 0], [0, 1, 0], [1, 1, -1]])
+        a2 = Atoms(numbers=atoms.get_atomic_numbers(), positions=atoms.get_positions(), cell=U @ np.array(atoms.get_cell()), pbc=True)
+        try:
+            s1 = SymmetryAnalyzer(atoms, symmetry_tol=1e-3)
+            s2 = SymmetryAnalyzer(a2, symmetry_tol=1e-3)
+            n1, f1, n2, f2 = s1.get_space_group_number(), bool(s1.get_is_chiral()), s2.get_space_group_number(), bool(s2.get_is_chiral())
+        except Exception as e:  # noqa
+            bad.append({"group": n, "error": repr(e), "atoms": crystals.atoms_to_json(a2), "presentation": {"unimodular": U.tolist()}})
+            continue
+        if n1 != n:
+            ctx.count("e2e_discarded_group_changed")
+            continue
+        ctx.case(("e2e", n, "left-handed-leaning", len(atoms)), nontrivial=True)
+        ctx.count("e2e_left_handed_leaning")
+        if f2 != f1 or f1 != (n in SOHNCKE):
+            bad.append({"group": n, "flag": f2, "expected": n in SOHNCKE, "detected_group_of_this_description": int(n2),
+                        "atoms": crystals.atoms_to_json(a2), "presentation": {"unimodular": U.tolist()}})
     return bad
 
 
